@@ -253,6 +253,77 @@ theorem quickselect_no_panic (cmp : Cmp3 ε α) (arr : List α) (target : Nat) (
     Select.quickselect cmp arr target ≠ .panic :=
   Select.quickselect_ok cmp arr target ht
 
+/-! ### `quickselect` / `nth_smallest` / `nth_largest` / `median`: the rank asked for
+
+`Select.Pure3 cmp c3`: the comparator never fails and computes the three-way result `c3`.
+`Select.TotalPre c3`: `c3` is a total preorder — `c3 a b = -1` ("below") iff `c3 b a = 1` ("above"), and
+"not above" is transitive; everything else counts as tied.  "`x` has rank `k`" is said by counting: at most
+`k` elements are strictly below `x` and more than `k` are not above it, which is exactly "tied with what a
+sort of the input puts at index `k`". -/
+
+/-- the model of `quickselect` (the code after `fix:` 9e13c00) answers — no failure, no panic, the fuel
+`len + 1` suffices — with an element of the input of rank `k`, for every input and every `k < len` -/
+theorem quickselect_spec {c3 : α → α → Int} (cmp : Cmp3 ε α) (hp : Select.Pure3 cmp c3)
+    (ht : Select.TotalPre c3) (arr : List α) (k : Nat) (hk : k < arr.length) :
+    ∃ x arr' n, Select.quickselect cmp arr k = .ok (x, arr') n ∧ x ∈ arr ∧ arr'.Perm arr ∧
+      arr.countP (fun y => decide (c3 y x = -1)) ≤ k ∧ k < arr.countP (fun y => decide (c3 y x ≠ 1)) :=
+  Select.quickselect_rank hp ht arr k hk
+
+/-- the hypothesis is satisfiable: integer comparison -/
+example : Select.TotalPre (fun a b : Int => if a < b then -1 else if b < a then 1 else 0) :=
+  Select.int_totalPre
+
+/-- `nth_smallest(i)`: the error value iff `i` is out of range, else the element of rank `i` -/
+theorem nth_smallest_spec {c3 : α → α → Int} (cmp : Cmp3 ε α) (hp : Select.Pure3 cmp c3)
+    (ht : Select.TotalPre c3) (arr : List α) (i : Nat) :
+    (arr.length ≤ i → Select.nthSmallest cmp arr i = none) ∧
+    (i < arr.length → ∃ x arr' n, Select.nthSmallest cmp arr i = some (.ok (x, arr') n) ∧ x ∈ arr ∧
+      arr.countP (fun y => decide (c3 y x = -1)) ≤ i ∧ i < arr.countP (fun y => decide (c3 y x ≠ 1))) := by
+  constructor
+  · intro h; simp [Select.nthSmallest, h]
+  · intro h
+    obtain ⟨x, arr', n, q1, q2, _, q4, q5⟩ := quickselect_spec cmp hp ht arr i h
+    exact ⟨x, arr', n, by simp [Select.nthSmallest, Nat.not_le.mpr h, q1], q2, q4, q5⟩
+
+/-- `median`: the element of rank `len / 2` (the error value for an empty sequence) -/
+theorem median_spec {c3 : α → α → Int} (cmp : Cmp3 ε α) (hp : Select.Pure3 cmp c3)
+    (ht : Select.TotalPre c3) (arr : List α) :
+    (arr = [] → Select.median cmp arr = none) ∧
+    (arr ≠ [] → ∃ x arr' n, Select.median cmp arr = some (.ok (x, arr') n) ∧ x ∈ arr ∧
+      arr.countP (fun y => decide (c3 y x = -1)) ≤ arr.length / 2 ∧
+      arr.length / 2 < arr.countP (fun y => decide (c3 y x ≠ 1))) := by
+  constructor
+  · intro h; subst h; rfl
+  · intro h
+    have hl : arr.length / 2 < arr.length := by
+      have : 0 < arr.length := List.length_pos_iff.mpr h
+      omega
+    exact (nth_smallest_spec cmp hp ht arr (arr.length / 2)).2 hl
+
+/-- `nth_largest(i)`: counted from the top — at most `i` elements are strictly above the answer and more
+than `i` are not below it -/
+theorem nth_largest_spec {c3 : α → α → Int} (cmp : Cmp3 ε α) (hp : Select.Pure3 cmp c3)
+    (ht : Select.TotalPre c3) (arr : List α) (i : Nat) :
+    (arr.length ≤ i → Select.nthLargest cmp arr i = none) ∧
+    (i < arr.length → ∃ x arr' n, Select.nthLargest cmp arr i = some (.ok (x, arr') n) ∧ x ∈ arr ∧
+      arr.countP (fun y => decide (c3 y x = 1)) ≤ i ∧ i < arr.countP (fun y => decide (c3 y x ≠ -1))) := by
+  constructor
+  · intro h; simp [Select.nthLargest, h]
+  · intro h
+    obtain ⟨x, arr', n, q1, q2, _, q4, q5⟩ :=
+      quickselect_spec cmp hp ht arr (arr.length - i - 1) (by omega)
+    refine ⟨x, arr', n, by simp [Select.nthLargest, Nat.not_le.mpr h, q1], q2, ?_, ?_⟩
+    · have := List.length_eq_countP_add_countP (fun y => decide (c3 y x = 1)) (l := arr)
+      have e : arr.countP (fun a => decide ¬(decide (c3 a x = 1)) = true) =
+          arr.countP (fun y => decide (c3 y x ≠ 1)) := by
+        apply List.countP_congr; intro y _; simp
+      omega
+    · have := List.length_eq_countP_add_countP (fun y => decide (c3 y x = -1)) (l := arr)
+      have e : arr.countP (fun a => decide ¬(decide (c3 a x = -1)) = true) =
+          arr.countP (fun y => decide (c3 y x ≠ -1)) := by
+        apply List.countP_congr; intro y _; simp
+      omega
+
 /-! ## derived eq / hash / cmp and the relational operators
 
 `PureEq f g` etc.: the component function never answers an error value and computes `g`.
